@@ -174,13 +174,16 @@ theorem euclid_ops_regenerated (x y : Q) :
 
 -- ------------------------------------------------------------------ `Repr`-level function bodies (Gen/RatFns.lean)
 
-/-- the three reductions of rational/src/repr.rs, regenerated, are the model's `reduce`, `reduceWithHint`, `reduce2`
-    (any stored pair, any hint) -/
+/-- the three reductions of rational/src/repr.rs, regenerated, are the model's `reduce`, `reduce2` (any stored pair) and
+    `reduceWithHint` (any hint, positive denominator — every caller passes one; the proof is insensitive to the
+    association order of the two gcds) -/
 theorem reductions_regenerated (x : Q) (hint : Nat) :
     RatFns.Repr_reduce x.num x.den = reduce x ∧
-    RatFns.Repr_reduce_with_hint x.num x.den hint = reduceWithHint x hint ∧
+    (0 < x.den → RatFns.Repr_reduce_with_hint x.num x.den hint = reduceWithHint x hint) ∧
     RatFns.Repr_reduce2 x.num x.den = reduce2 x :=
   ⟨gen_Repr_reduce x, gen_Repr_reduce_with_hint x hint, gen_Repr_reduce2 x⟩
+
+example : RatFns.Repr_reduce_with_hint 6 8 4 = .ok ⟨3, 4⟩ ∧ reduceWithHint ⟨6, 8⟩ 4 = .ok ⟨3, 4⟩ := by decide
 
 /-- rational/src/round.rs (`impl Repr`): `split_at_point`, `ceil`, `floor`, `trunc`, `fract`, `round` (ties away from zero) -/
 theorem rounding_regenerated (x : Q) :
@@ -204,6 +207,20 @@ theorem constructors_regenerated (n : Int) (d : Nat) (ds : Int) :
     RatFns.RBig_from_parts_signed n ds = rFromPartsSigned n ds ∧
     RatFns.Relaxed_from_parts_signed n ds = xFromPartsSigned n ds :=
   ⟨gen_RBig_from_parts n d, gen_Relaxed_from_parts n d, gen_RBig_from_parts_signed n ds, gen_Relaxed_from_parts_signed n ds⟩
+
+/-- `from_parts_const` of both types (rbig.rs): the guards, the const Euclid loop `while r > 1 { (y, r) = (r, y % r) }` — regenerated
+    as `G.while_dec (measure r) cond step` — and the division by the last remainder; the power-of-two version of `Relaxed` -/
+theorem const_constructors_regenerated (neg : Bool) (n d : Nat) :
+    RatFns.RBig_from_parts_const (if neg then -1 else 1) n d = rFromPartsConst neg n d ∧
+    RatFns.Relaxed_from_parts_const (if neg then -1 else 1) n d = xFromPartsConst neg n d :=
+  ⟨gen_RBig_from_parts_const neg n d, gen_Relaxed_from_parts_const neg n d⟩
+
+/-- the regenerated loop is the model's `constGcdLoop` from every start -/
+theorem const_gcd_loop_regenerated (y r : Nat) :
+    G.while_dec (fun (s : Int × Int) => s.2.toNat) (fun s => G.gt s.2 (1 : Int))
+      (fun s => (s.2, G.rem_u s.1 s.2)) ((y : Int), (r : Int))
+      = (((constGcdLoop y r).1 : Int), ((constGcdLoop y r).2 : Int)) :=
+  while_dec_constGcdLoop r y
 
 example : RatFns.Repr_reduce (-6) 4 = .ok ⟨-3, 2⟩ ∧ RatFns.Repr_round (-7) 2 = .ok (-4) ∧
     RatFns.Repr_inv (-3) 4 = .ok ⟨-4, 3⟩ ∧ RatFns.RBig_from_parts_signed 6 (-4) = .ok ⟨-3, 2⟩ ∧
